@@ -654,7 +654,7 @@ class C35(core.Check):
     GEN = ['gen_signals']
     PROPS = 'props/C35.v'
     MODEL_IMPORTS = ['gen.Gen_signals', 'model.Signals']
-    QUICK_CASES = 110
+    QUICK_CASES = 70
     THOROUGH_CASES = 1500
     TRUSTED = [
         'hand model model/Signals.v of VideoBuffer/_PixelAccess/Display page and signal handling (with '
